@@ -24,9 +24,24 @@ impl ModuleLoader {
             return self.load_std_module(needs, vm);
         }
 
-        if self.loading_stack.contains(&module_path_str) {
-            let mut chain = self.loading_stack.clone();
-            chain.push(module_path_str.clone());
+        // A module is the file the import resolves to, not the spelling of the import: the
+        // same file can be written `a.x`, `x` or `a.x.symbol` depending on the importing file,
+        // and the same spelling can mean different files in different directories.
+        let (resolution, actual_path, symbol) =
+            self.resolve_path_with_fallback(&needs.path, needs)?;
+        let actual_path_str = actual_path.join(".");
+        let module_key = Self::module_key(&resolution, &actual_path);
+
+        if self.loading_stack.contains(&module_key) {
+            let mut chain: Vec<String> = self
+                .loading_stack
+                .iter()
+                .map(|key| match self.loaded_modules.get(key) {
+                    Some(info) => info.path.clone(),
+                    None => key.clone(),
+                })
+                .collect();
+            chain.push(actual_path_str.clone());
             return Err(AelysError::Compile(CompileError::new(
                 CompileErrorKind::CircularDependency { chain },
                 needs.span,
@@ -34,11 +49,17 @@ impl ModuleLoader {
             )));
         }
 
-        if self.loaded_modules.contains_key(&module_path_str) {
-            if let Some(prev) = self.native_fingerprints.get(&module_path_str).cloned() {
+        if let Some(sym) = symbol.as_ref()
+            && self.loaded_modules.contains_key(&module_key)
+        {
+            return Ok(LoadResult::Symbol(sym.clone()));
+        }
+
+        if self.loaded_modules.contains_key(&module_key) {
+            if let Some(prev) = self.native_fingerprints.get(&module_key).cloned() {
                 let file_path = self
                     .loaded_modules
-                    .get(&module_path_str)
+                    .get(&module_key)
                     .map(|info| info.file_path.clone())
                     .ok_or_else(|| {
                         AelysError::Compile(CompileError::new(
@@ -62,12 +83,11 @@ impl ModuleLoader {
                     )));
                 }
                 if let Some(current) = current {
-                    self.native_fingerprints
-                        .insert(module_path_str.clone(), current);
+                    self.native_fingerprints.insert(module_key.clone(), current);
                 }
             }
 
-            let module_info = self.loaded_modules.get(&module_path_str).ok_or_else(|| {
+            let module_info = self.loaded_modules.get(&module_key).ok_or_else(|| {
                 AelysError::Compile(CompileError::new(
                     CompileErrorKind::ModuleNotFound {
                         module_path: module_path_str.clone(),
@@ -144,17 +164,7 @@ impl ModuleLoader {
             return Ok(self.get_load_result(needs));
         }
 
-        let (resolution, actual_path, symbol) =
-            self.resolve_path_with_fallback(&needs.path, needs)?;
-        let actual_path_str = actual_path.join(".");
-
-        if let Some(sym) = symbol.as_ref()
-            && self.loaded_modules.contains_key(&actual_path_str)
-        {
-            return Ok(LoadResult::Symbol(sym.clone()));
-        }
-
-        self.loading_stack.push(actual_path_str.clone());
+        self.loading_stack.push(module_key.clone());
 
         let effective_needs = if let Some(sym) = &symbol {
             NeedsStmt {
@@ -168,7 +178,13 @@ impl ModuleLoader {
 
         let result = match resolution.kind {
             aelys_modules::resolution::ModuleKind::Script => {
-                self.compile_module(&resolution.path, &actual_path_str, &effective_needs, vm)
+                self.compile_module(
+                    &resolution.path,
+                    &module_key,
+                    &actual_path_str,
+                    &effective_needs,
+                    vm,
+                )
             }
             aelys_modules::resolution::ModuleKind::Native => {
                 self.load_native_module(&resolution.path, &actual_path_str, &effective_needs, vm)
